@@ -526,7 +526,7 @@ class Fn:
         return res
 
     # ---- path queries ----------------------------------------------------------------------
-    def path_to_exit_avoiding(self, start, stop, include_noreturn=False, extra_edges=None, targets=None):
+    def path_to_exit_avoiding(self, start, stop, include_noreturn=False, extra_edges=None, targets=None, removed_edges=()):
         """Search a path from just after `start` (Pos) to the function's normal exit (or to any
         position in `targets`, a predicate on (pos, ev)) that does not execute an event for which
         stop(pos, ev) is true. Returns the list of block ids of such a path, or None if every path
@@ -557,7 +557,7 @@ class Fn:
                     return
                 nxt = [x for x in self.blocks[b]["succs"] if x is not None]
             else:
-                nxt = list(self.succs(b))
+                nxt = [x for i, x in self.succ_edges(b) if (b, i) not in removed_edges]
             if extra_edges and b in extra_edges:
                 nxt += list(extra_edges[b])
             for s in nxt:
